@@ -422,7 +422,7 @@ func TestC17(t *testing.T) {
 	RunEnum(c, t, "lattice", len(cases), func(i int) c17Case { return cases[i] }, c17Check, true)
 
 	// random directory names over the whole lattice
-	RunRapid(c, t, Sub[c17Case]{Kind: "random-dirs", Quick: 1500, Thorough: 60_000,
+	RunRapid(c, t, Sub[c17Case]{Kind: "random-dirs", Quick: 6000, Thorough: 60_000,
 		Gen: func(t *rapid.T) c17Case {
 			dir := rapid.StringOfN(rapid.RuneFrom([]rune("abXY09._- ÄéΩ#@+")), 1, 10, -1).Draw(t, "dir")
 			dir = strings.TrimSpace(dir)
